@@ -212,7 +212,7 @@ func (r *runZeroConsumersClose) Next(t time.Time) time.Time {
 }
 
 func (r *runZeroConsumersClose) run() {
-	if r.s.consumptions.Count() <= 0 {
+	if r.s.ConsumerCount() <= 0 { // consumers of every kind: RTP and FLV
 		hlsable := r.s.Hlsable()
 		if hlsable == nil || time.Now().Sub(hlsable.LastAccessTime()) >= r.d {
 			r.closed = true
